@@ -74,10 +74,12 @@ def classify(r):
 
 def shrink_lines(src, still_fails, max_rounds=200):
     """greedy removal of lines / brace-balanced chunks while the failure persists"""
+    import time
+    deadline = time.time() + 120.0      # shrinking is a convenience: never let it dominate a check
     lines = src.split("\n")
     rounds = 0
     changed = True
-    while changed and rounds < max_rounds:
+    while changed and rounds < max_rounds and time.time() < deadline:
         changed = False
         n = len(lines)
         size = max(1, n // 2)
@@ -91,13 +93,19 @@ def shrink_lines(src, still_fails, max_rounds=200):
                     changed = True
                 else:
                     i += size
-                if rounds >= max_rounds:
+                if rounds >= max_rounds or time.time() > deadline:
                     break
             size //= 2
-            if rounds >= max_rounds:
+            if rounds >= max_rounds or time.time() > deadline:
                 break
     return "\n".join(lines)
 
 
-def one(src, budget=BUDGET, want_spec=True):
+def one(src, budget=BUDGET, want_spec=True, per_request_timeout=None):
+    if per_request_timeout:
+        reqs = ["evalx %d %s" % (budget, hx(src))]
+        impl = core.impl(reqs, per_request_timeout=per_request_timeout, total_timeout=per_request_timeout)
+        model = core.model(reqs, per_request_timeout=per_request_timeout, total_timeout=per_request_timeout)
+        spec = core.model(["spec %d %s" % (budget, hx(src))], per_request_timeout=per_request_timeout, total_timeout=per_request_timeout) if want_spec else [None]
+        return dict(src=src, impl=impl[0], model=model[0], spec=spec[0])
     return eval_all([src], budget, want_spec)[0]
